@@ -634,133 +634,133 @@ package websocket
 //@ func (websocket.Handler).HandlePing
 //@   event
 //@   modifies all *
-//@   preserves websocket.handler., cell:
+//@   preserves websocket.handler., cell:, ghost.ctxcancelled, ghost.evn:handleDisconnect
 //@   allocates
 
 //@ func (websocket.Handler).HandlePingResponse
 //@   event
 //@   modifies all *
-//@   preserves websocket.handler., cell:
+//@   preserves websocket.handler., cell:, ghost.ctxcancelled, ghost.evn:handleDisconnect
 //@   allocates
 
 //@ func (websocket.Handler).HandleSignedLatency
 //@   event
 //@   modifies all *
-//@   preserves websocket.handler., cell:
+//@   preserves websocket.handler., cell:, ghost.ctxcancelled, ghost.evn:handleDisconnect
 //@   allocates
 
 //@ func (websocket.Handler).HandleEntityAdd
 //@   event
 //@   modifies all *
-//@   preserves websocket.handler., cell:
+//@   preserves websocket.handler., cell:, ghost.ctxcancelled, ghost.evn:handleDisconnect
 //@   allocates
 
 //@ func (websocket.Handler).HandleEntityDelete
 //@   event
 //@   modifies all *
-//@   preserves websocket.handler., cell:
+//@   preserves websocket.handler., cell:, ghost.ctxcancelled, ghost.evn:handleDisconnect
 //@   allocates
 
 //@ func (websocket.Handler).HandleCustomMessage
 //@   event
 //@   modifies all *
-//@   preserves websocket.handler., cell:
+//@   preserves websocket.handler., cell:, ghost.ctxcancelled, ghost.evn:handleDisconnect
 //@   allocates
 
 //@ func (websocket.Handler).HandleEntityComponentTypeAdd
 //@   event
 //@   modifies all *
-//@   preserves websocket.handler., cell:
+//@   preserves websocket.handler., cell:, ghost.ctxcancelled, ghost.evn:handleDisconnect
 //@   allocates
 
 //@ func (websocket.Handler).HandleEntityComponentGetName
 //@   event
 //@   modifies all *
-//@   preserves websocket.handler., cell:
+//@   preserves websocket.handler., cell:, ghost.ctxcancelled, ghost.evn:handleDisconnect
 //@   allocates
 
 //@ func (websocket.Handler).HandleEntityComponentGetID
 //@   event
 //@   modifies all *
-//@   preserves websocket.handler., cell:
+//@   preserves websocket.handler., cell:, ghost.ctxcancelled, ghost.evn:handleDisconnect
 //@   allocates
 
 //@ func (websocket.Handler).HandleEntityComponentAdd
 //@   event
 //@   modifies all *
-//@   preserves websocket.handler., cell:
+//@   preserves websocket.handler., cell:, ghost.ctxcancelled, ghost.evn:handleDisconnect
 //@   allocates
 
 //@ func (websocket.Handler).HandleEntityComponentDelete
 //@   event
 //@   modifies all *
-//@   preserves websocket.handler., cell:
+//@   preserves websocket.handler., cell:, ghost.ctxcancelled, ghost.evn:handleDisconnect
 //@   allocates
 
 //@ func (websocket.Handler).HandleEntityComponentList
 //@   event
 //@   modifies all *
-//@   preserves websocket.handler., cell:
+//@   preserves websocket.handler., cell:, ghost.ctxcancelled, ghost.evn:handleDisconnect
 //@   allocates
 
 //@ func (websocket.Handler).HandleEntityComponentSubscribe
 //@   event
 //@   modifies all *
-//@   preserves websocket.handler., cell:
+//@   preserves websocket.handler., cell:, ghost.ctxcancelled, ghost.evn:handleDisconnect
 //@   allocates
 
 //@ func (websocket.Handler).HandleEntityComponentUnsubscribe
 //@   event
 //@   modifies all *
-//@   preserves websocket.handler., cell:
+//@   preserves websocket.handler., cell:, ghost.ctxcancelled, ghost.evn:handleDisconnect
 //@   allocates
 
 //@ func (websocket.Handler).HandleReceipt
 //@   event
 //@   modifies all *
-//@   preserves websocket.handler., cell:
+//@   preserves websocket.handler., cell:, ghost.ctxcancelled, ghost.evn:handleDisconnect
 //@   allocates
 
 //@ func (websocket.Handler).HandleEntityUpdatePose
 //@   event
 //@   modifies all *
-//@   preserves websocket.handler., cell:
+//@   preserves websocket.handler., cell:, ghost.ctxcancelled, ghost.evn:handleDisconnect
 //@   allocates
 
 //@ func (websocket.Handler).HandleEntityComponentUpdate
 //@   event
 //@   modifies all *
-//@   preserves websocket.handler., cell:
+//@   preserves websocket.handler., cell:, ghost.ctxcancelled, ghost.evn:handleDisconnect
 //@   allocates
 
 //@ func (websocket.Handler).HandleParticipantJoin
 //@   event
 //@   modifies all *
-//@   preserves websocket.handler., cell:
+//@   preserves websocket.handler., cell:, ghost.ctxcancelled, ghost.evn:handleDisconnect
 //@   allocates
 
 //@ func (websocket.Handler).HandleWithModule
 //@   event
 //@   modifies all *
-//@   preserves websocket.handler., cell:
+//@   preserves websocket.handler., cell:, ghost.ctxcancelled, ghost.evn:handleDisconnect
 //@   allocates
 
 //@ func (websocket.Handler).HandleDisconnect
 //@   event
 //@   modifies all *
-//@   preserves websocket.handler., cell:
+//@   preserves websocket.handler., cell:, ghost.ctxcancelled, ghost.evn:handleDisconnect
 //@   allocates
 
 //@ func (websocket.Handler).HandleConnect
 //@   event
 //@   modifies all *
-//@   preserves websocket.handler., cell:
+//@   preserves websocket.handler., cell:, ghost.ctxcancelled, ghost.evn:handleDisconnect
 //@   allocates
 
 //@ func (websocket.Handler).SendSyncClock
 //@   event
 //@   modifies all *
-//@   preserves websocket.handler., cell:
+//@   preserves websocket.handler., cell:, ghost.ctxcancelled, ghost.evn:handleDisconnect
 //@   allocates
 
 //@ func (websocket.Handler).CurrentParticipant
@@ -786,6 +786,7 @@ package websocket
 //@ func (websocket.Handler).SyncClockInterval
 //@   modifies nothing
 //@   allocates
+//@   trusted_ensures result > 0
 
 //@ func (websocket.Handler).Sender
 //@   modifies nothing
@@ -805,6 +806,10 @@ package websocket
 
 //@ func (*websocket.handler).handleMessage
 //@   property C04
+//@   event
+//@   modifies all *
+//@   preserves websocket.handler., cell:, ghost.ctxcancelled, ghost.evn:handleDisconnect
+//@   allocates
 //@   requires h.Handler != nil && h.dispatcher != nil && msgtype(msg) != nil
 //@   let T = msgtype(msg)
 //@   behaviour ping:
@@ -936,3 +941,48 @@ package websocket
 //@     emits {C18,C04} [OnPing(P.SignedLatency, req.RequestId); atleastwhen !pending(P.SignedLatency, req.RequestId) =>> send(respond, hagallpb.ErrorResponse{Type: hagallpb.MsgType_MSG_TYPE_ERROR_RESPONSE, RequestId: req.RequestId, Code: hagallpb.ErrorCode_ERROR_CODE_INTERNAL_SERVER_ERROR})]
 //@   complete behaviours
 //@   disjoint behaviours
+
+// ---------------------------------------------------------------------------------------------
+// The connection loop (C08): every way a connection can end funnels into handleDisconnect once.
+// ---------------------------------------------------------------------------------------------
+
+//@ func (*websocket.handler).disconnect
+//@   property C08
+//@   event
+//@   modifies all chan.*, all ghost.chan*
+//@   allocates
+//@   emits {C08} [maybe =>> chansend(h.disconnectChan, err)]
+
+//@ func (*websocket.handler).handleDisconnect
+//@   property C08, C06
+//@   event
+//@   requires h.Handler != nil
+//@   modifies all *
+//@   preserves websocket.handler., cell:, ghost.ctxcancelled, ghost.evn:handleDisconnect
+//@   allocates
+//@   emits {C08,C06} [HandleDisconnect(h.Handler, err)]
+
+//@ func (*websocket.handler).send
+//@   property C08
+//@   assume_nonblocking A-drain: the connection's sender goroutine drains sendChan while the client keeps reading
+
+//@ func (*websocket.handler).sendMsg
+//@   property C08
+//@   assume_nonblocking A-drain: the connection's sender goroutine drains sendChan while the client keeps reading
+
+//@ func (*websocket.handler).Handle$1
+//@   requires h != nil
+//@   modifies all chan.*, all ghost.chan*
+//@   allocates
+//@   loop 1:
+//@     invariant true
+
+//@ func (*websocket.handler).Handle
+//@   property C08, C06
+//@   let H = h.Handler
+//@   requires h.Handler != nil
+//@   ensures {C08,C06} evtotal(handleDisconnect) == old(evtotal(handleDisconnect)) + 1
+//@   loop 1:
+//@     invariant unchanged(h.Handler) && h.Handler != nil && h.disconnectChan != nil && h.consumer != nil && h.dispatcher != nil
+//@     invariant {C08,C06} evtotal(handleDisconnect) == old(evtotal(handleDisconnect)) + ite(cancelled($ctx), 1, 0)
+//@     emits {C08} [disconnect(h, _)] | [SendSyncClock(H, _, _)] | [SendSyncClock(H, _, _); disconnect(h, _)] | [timer_reset(_, _); handleMessage(h, _, _, _)] | [timer_reset(_, _); handleMessage(h, _, _, _); disconnect(h, _)] | [handleDisconnect(h, _)]
